@@ -93,6 +93,125 @@ Theorem c10_premises_satisfiable :
   tables_wf ex_tables.
 Proof. exact ex_tables_wf. Qed.
 
+(* ---- the row loop of convert_line_program (Model/LineProg.v, replayed against the rows gimli reads back from every emission):
+   for EVERY address converter cv: gimli's writer assertions cannot fire; on a well-formed program the conversion never errs
+   and every emitted sequence is terminated; the non-end rows the reader sees are exactly the images of the input's non-end
+   rows, in order, whether or not the base / end address of the sequence is still mapped; end rows are images of input end
+   rows or "previous position + 1".  The code before the repair 10ea4f7 fails the second and third statement. *)
+From WV Require Import Model.LineProg Proofs.LineProg.
+Theorem c10_line_writer_never_asserts :
+  forall (cv : N -> bool -> option N) (is : list lin) (s' : lst) (evs : list lev),
+         lrun cv lst0 is = Some (s', evs) -> writer_ok false 0 evs = true /\ l_in s' = wopen false evs.
+Proof. exact lrun_writer_ok0. Qed.
+
+Theorem c10_line_program_total_and_terminated :
+  forall (cv : N -> bool -> option N) (seqs : list (N * list lin)),
+         Forall (fun p : N * list lin => seq_ok (snd p)) seqs ->
+         exists (s' : lst) (evs : list lev), lrun cv lst0 (prog_of seqs) = Some (s', evs) /\ l_in s' = false.
+Proof. exact lrun_wf_total. Qed.
+
+Theorem c10_line_rows_exact :
+  forall (cv : N -> bool -> option N) (seqs : list (N * list lin)) (s' : lst) (evs : list lev),
+         Forall (fun p : N * list lin => seq_ok (snd p)) seqs ->
+         lrun cv lst0 (prog_of seqs) = Some (s', evs) ->
+         filter (fun r : N * N * bool => negb (snd r)) (rows_of 0 evs) =
+         flat_map
+           (fun p : N * list lin =>
+            flat_map
+              (fun i : lin =>
+               match i with
+               | LSetAddr _ => []
+               | LRow a true _ => []
+               | LRow a false ln =>
+                   match cv (a + fst p) true with
+                   | Some x => [(x, ln, false)]
+                   | None => []
+                   end
+               end) (snd p)) seqs.
+Proof. exact lrun_rows_exact. Qed.
+
+Theorem c10_line_end_rows :
+  forall (cv : N -> bool -> option N) (seqs : list (N * list lin)) (s' : lst) (evs : list lev),
+         Forall (fun p : N * list lin => seq_ok (snd p)) seqs ->
+         lrun cv lst0 (prog_of seqs) = Some (s', evs) ->
+         Forall (fun xq : N * N => fst xq = snd xq + 1 \/ In (fst xq) (end_images cv seqs)) (ends_of 0 0 evs).
+Proof. exact lrun_end_rows. Qed.
+
+Theorem c10_line_old_code_refuted :
+  (exists (cv : N -> bool -> option N) (seqs : list (N * list lin)),
+            Forall (fun p : N * list lin => seq_ok (snd p)) seqs /\ lrun_old cv lst0 (prog_of seqs) = None) /\
+         (exists (cv : N -> bool -> option N) (seqs : list (N * list lin)) (s' : lst) 
+          (evs : list lev),
+            Forall (fun p : N * list lin => seq_ok (snd p)) seqs /\
+            lrun_old cv lst0 (prog_of seqs) = Some (s', evs) /\ l_in s' = true) /\
+         (exists (cv : N -> bool -> option N) (seqs : list (N * list lin)) (s' : lst) 
+          (evs : list lev),
+            Forall (fun p : N * list lin => seq_ok (snd p)) seqs /\
+            lrun_old cv lst0 (prog_of seqs) = Some (s', evs) /\
+            filter (fun r : N * N * bool => negb (snd r)) (rows_of 0 evs) <>
+            flat_map
+              (fun p : N * list lin =>
+               flat_map
+                 (fun i : lin =>
+                  match i with
+                  | LSetAddr _ => []
+                  | LRow a true _ => []
+                  | LRow a false ln =>
+                      match cv (a + fst p) true with
+                      | Some x => [(x, ln, false)]
+                      | None => []
+                      end
+                  end) (snd p)) seqs).
+Proof. exact old_code_refuted. Qed.
+
+Theorem c10_line_example :
+  option_map (fun r : lst * list lev => rows_of 0 (snd r)) (lrun cvx lst0 (prog_of progx)) =
+         Some
+           [(112, 2, false); (113, 0, true); (7, 3, false); (10, 4, false); (11, 0, true); (
+            110, 5, false); (115, 6, false); (119, 0, true)].
+Proof. exact lrun_example_rows. Qed.
+
+
+(* ---- composed with the converter of Model/Dwarf.v: every input row on an instruction that is still emitted yields exactly
+   one output row at the code-section-relative output offset of THAT instruction, in input order; rows of removed
+   instructions are dropped; nothing else is emitted *)
+From WV Require Import Proofs.LineProg2.
+Theorem c10_line_rows_follow_their_instructions :
+  forall (t : dtables) (c : ctrans) (seqs : list (N * list lin)) (s' : lst) (evs : list lev),
+         tables_wf t ->
+         wf seqs ->
+         (forall (p : N * list lin) (a ln : N),
+          In p seqs -> In (LRow a false ln) (snd p) -> exists loc : N, In (a + fst p, loc) (dt_instrs t)) ->
+         lrun (convert_address t c) lst0 (prog_of seqs) = Some (s', evs) ->
+         filter (fun r : N * N * bool => negb (snd r)) (rows_of 0 evs) =
+         flat_map
+           (fun p : N * list lin =>
+            flat_map
+              (fun i : lin =>
+               match i with
+               | LSetAddr _ => []
+               | LRow a true _ => []
+               | LRow a false ln =>
+                   match loc_of t (a + fst p) with
+                   | Some loc =>
+                       match lookup loc (ct_imap c) with
+                       | Some x => [(x - ct_start c, ln, false)]
+                       | None => []
+                       end
+                   | None => []
+                   end
+               end) (snd p)) seqs.
+Proof. exact line_rows_end_to_end. Qed.
+
+Theorem c10_line_program_never_panics :
+  forall (t : dtables) (c : ctrans) (seqs : list (N * list lin)),
+         wf seqs ->
+         exists (s' : lst) (evs : list lev),
+           lrun (convert_address t c) lst0 (prog_of seqs) = Some (s', evs) /\
+           l_in s' = false /\ writer_ok false 0 evs = true.
+Proof. exact line_program_total_end_to_end. Qed.
+
+
 Print Assumptions c10_row_address_is_its_instruction.
 Print Assumptions c10_row_follows_instruction.
 Print Assumptions c10_removed_code_dropped.
@@ -103,3 +222,11 @@ Print Assumptions c10_subprogram_covers_same_function.
 Print Assumptions c10_subprogram_of_removed_function.
 Print Assumptions c10_unknown_address.
 Print Assumptions c10_premises_satisfiable.
+Print Assumptions c10_line_writer_never_asserts.
+Print Assumptions c10_line_program_total_and_terminated.
+Print Assumptions c10_line_rows_exact.
+Print Assumptions c10_line_end_rows.
+Print Assumptions c10_line_old_code_refuted.
+Print Assumptions c10_line_example.
+Print Assumptions c10_line_rows_follow_their_instructions.
+Print Assumptions c10_line_program_never_panics.
